@@ -386,14 +386,21 @@ fn handle_established(
             wake_write = true;
         }
 
-        // Data: accept if it lands exactly at rcv_nxt and fits under
-        // the receive cap. Gaps, overlaps, and overruns all drop.
+        // Data: accept what starts at rcv_nxt and fits under the receive
+        // cap. Gaps and overruns drop. A segment that starts *below*
+        // rcv_nxt but reaches beyond it is trimmed to its new part: a
+        // go-back-N retransmission re-chops the stream from snd_una, so
+        // its segments rarely line up with the ones that got through, and
+        // dropping them whole makes the sender wait a further round trip
+        // per boundary (up to retransmit exhaustion on a long link).
         let tcb = st.tcb.as_mut().unwrap();
-        if !s.payload.is_empty() && s.seq == tcb.rcv_nxt && !tcb.peer_fin {
+        let skip = tcb.rcv_nxt.wrapping_sub(s.seq) as usize;
+        if !s.payload.is_empty() && skip < s.payload.len() && !tcb.peer_fin {
+            let fresh = &s.payload[skip..];
             let room = recv_cap.saturating_sub(tcb.recv_buf.len());
-            let n = s.payload.len().min(room);
+            let n = fresh.len().min(room);
             if n > 0 {
-                tcb.recv_buf.extend_from_slice(&s.payload[..n]);
+                tcb.recv_buf.extend_from_slice(&fresh[..n]);
                 tcb.rcv_nxt = tcb.rcv_nxt.wrapping_add(n as u32);
                 wake_read = true;
                 send_ack = true;
